@@ -143,5 +143,27 @@ def find (buf : Bytes) : FindExpect :=
     else if i + le32 buf (i + 8) > buf.length then .error
     else .some_ i (le32 buf (i + 8))
 
+
+/-! ### C04 — field offsets of the Multiboot2 specification (§3.6.x), copied from the specification, NOT from the code -/
+
+/-- (name, offset from tag start, width in bytes) per information-tag type number -/
+def fields : Nat → List (String × Nat × Nat)
+  | 10 => [("version", 8, 2), ("cseg", 10, 2), ("offset", 12, 4), ("cset_16", 16, 2), ("dseg", 18, 2), ("flags", 20, 2),
+           ("cseg_len", 22, 2), ("cseg_16_len", 24, 2), ("dseg_len", 26, 2)]                     -- APM table
+  | 4 => [("lower", 8, 4), ("upper", 12, 4)]                                                    -- basic memory information
+  | 5 => [("biosdev", 8, 4), ("slice", 12, 4), ("part", 16, 4)]                                 -- BIOS boot device
+  | 19 => [("handle", 8, 4)]                                                                    -- EFI 32-bit image handle
+  | 20 => [("handle", 8, 8)]                                                                    -- EFI 64-bit image handle
+  | 11 => [("sdt", 8, 4)]                                                                       -- EFI 32-bit system table
+  | 12 => [("sdt", 8, 8)]                                                                       -- EFI 64-bit system table
+  | 21 => [("addr", 8, 4)]                                                                      -- image load base address
+  | _ => []
+
+/-- unpadded size of the fixed-size information tags -/
+def fixedSize : Nat → Option Nat
+  | 0 => some 8 | 4 => some 16 | 5 => some 20 | 7 => some 784 | 10 => some 28 | 11 => some 12 | 12 => some 16
+  | 14 => some 28 | 15 => some 44 | 18 => some 8 | 19 => some 12 | 20 => some 16 | 21 => some 12
+  | _ => none
+
 end Spec
 end Mb2
